@@ -77,6 +77,27 @@ def build_jobs(tier, seed):
         e = G.random_expr(rng, rng.choice([1, 2, 3]), leaves=BYTE_LEAVES)
         name, c = rng.choice(G.CONTEXTS)
         add(c(e), 'bytes-' + name, bm=True)
+    # (d) one rule nested deeply enough for the generator to move its inner part into a helper function, between siblings
+    # that keep temporaries alive across it (the checkpoint of an enclosing choice/option/repetition, the items of an
+    # enclosing sequence): the model has no nesting limit
+    deep_inputs = [(0, 'a' * k + t) for k in (0, 1, 15, 16, 17, 18, 19, 20, 21, 22) for t in ('', 'z', 'xz', 'q', 'b', 'pq')] + \
+                  [(0, 'p' + 'a' * k + 'q') for k in (15, 16, 17, 18, 19, 20, 21, 22)]
+    for d in (14, 15, 16, 17, 18, 19, 20, 21, 22):
+        chain = S('a')
+        for _ in range(d - 1):
+            chain = RIGHT(S('a'), chain)
+        nest = S('a')
+        for _ in range(d):
+            nest = SEQ(S('a'), OPT(nest))
+        for name, e in (('deep-choice', ALT(RIGHT(chain, RIGHT(OPT(S('x')), S('z'))), RX('a+'))),
+                        ('deep-seq', SEQ(OPT(S('p')), chain, OPT(S('q')), RX('[a-z]*'))),
+                        ('deep-rep', SEQ(REP(0, None, LEFT(chain, OPT(S('x')))), RX('[a-z]*'))),
+                        ('deep-nest', SEQ(nest, RX('[a-z]*')))):
+            if an.wellformed(e):
+                text, _ = G.grammar_text(e)
+                job = {'id': len(jobs), 'text': text, 'bm': False, 'cases': deep_inputs, 'fuel': 8 * d + 80,
+                       'meta': {'ctx': name, 'depth': d, 'kinds': sorted(G.kinds(e))}}
+                jobs.append(job)
     return jobs
 
 
